@@ -29,6 +29,7 @@ type LoopSpec struct {
 	Ord        int
 	Unroll     int // >0: unroll with unwinding assertion
 	Invariants []*Clause
+	Iters      []*Clause
 	Lets       []*Clause
 	Assigns    []string
 	Tags       []string
@@ -315,6 +316,10 @@ func ParseContracts(lines, poss []string) (*Contracts, error) {
 					c := &Clause{Kind: "invariant", Tags: ltags, Raw: subrest, Loop: ord, Line: pos}
 					ls.Invariants = append(ls.Invariants, c)
 					lastClause = c
+				case "iter":
+					c := &Clause{Kind: "iter", Tags: ltags, Raw: subrest, Loop: ord, Line: pos}
+					ls.Iters = append(ls.Iters, c)
+					lastClause = c
 				case "let":
 					m := regexp.MustCompile(`^(\w+)\s+(.+?)\s*=\s*(.*)$`).FindStringSubmatch(subrest)
 					if m == nil {
@@ -363,6 +368,9 @@ func ParseContracts(lines, poss []string) (*Contracts, error) {
 		}
 		for _, l := range fc.Loops {
 			for _, c := range l.Invariants {
+				fix(c)
+			}
+			for _, c := range l.Iters {
 				fix(c)
 			}
 			for _, c := range l.Lets {
